@@ -316,9 +316,9 @@ def r7(R, repo):
   for rel, qual, want_else in sites:
     f = repo.func(rel, qual)
     loops = [n for n in astu.body_walk(f.node) if isinstance(n, ast.For) and
-             any(isinstance(x, ast.Call) and isinstance(x.func, ast.Name) and x.func.id in astu.names_stored(n.target) for x in ast.walk(n))
-             and any(isinstance(x, ast.Break) for x in ast.walk(n))]
-    R.require(len(loops) == 1, '%s: predicate loop with break not found' % qual)
+             any(isinstance(x, ast.If) and any(isinstance(y, ast.Call) and isinstance(y.func, ast.Name) and
+                                                y.func.id in astu.names_stored(n.target) for y in ast.walk(x.test)) for x in ast.walk(n))]
+    R.require(len(loops) == 1, '%s: predicate loop not found' % qual)
     ok, msg, info = patterns.first_match_loop(f, loops[0])
     R.check(ok, key_of(f, 'first-match loop'), (f, loops[0]), '%s: %s' % (qual, msg))
     if ok:
